@@ -76,6 +76,8 @@ def gen_c15(r):
     elif k == "windows":
         w = r.randint(1, 4)
         st = [r.randint(0, n - 1) for _ in range(w)]
+        if r.random() < 0.5:
+            st.sort()                            # ordered windows that overlap here and leave gaps there
         idx = ["windows", st, [r.randint(s + 1, n) for s in st]]
     else:
         idx = ["all"]
@@ -117,9 +119,11 @@ def gen_c16(r):
         return ["rl_astype", dt, rnd_runs(r, dt, n, nan_ok=True), to], {"via": r.choice(RLV)}, True
     if k == "reduce" and r.random() < 0.25:
         from .enc import limbs
-        wdt = r.choice(["u8", "u8", "i8"])
+        wdt = r.choice(["u8", "u8", "i8", "i4", "u4", "i2"])
         base = r.choice([2 ** 53, 2 ** 60, 2 ** 63 - 50, 3]) if wdt == "i8" else r.choice([2 ** 53, 2 ** 63, 2 ** 64 - 50, 2 ** 62, 3])
-        pat = rnd_runs(r, "i1", n, small=True)
+        if wdt in ("i4", "u4", "i2"):            # 32- / 16-bit values near their extremes, in runs: totals far beyond the dtype
+            base = {"i4": 2 ** 31 - 50, "u4": 2 ** 32 - 50, "i2": 2 ** 15 - 50}[wdt]
+        pat = rnd_runs(r, "i1", n if wdt not in ("i2",) else r.choice([n, 70, 140]), small=True)
         sign = -1 if wdt == "i8" and r.random() < 0.3 else 1
         return ["rl_wsum", wdt, [limbs(sign * (base + abs(v))) for v in pat]], {"how": r.choice(["np", "method"]), "via": r.choice(RLV)}, False
     if k == "reduce":
@@ -148,7 +152,11 @@ def rnd_obj(r, dt=None, kinds=("matrix", "ragged", "ragged", "intervals")):
         return ["ragged", dt, [rnd_runs(r, dt, r.randint(1, 7), nan_ok=False, small=small) for _ in range(n)]]
     n, L = r.randint(1, 4), r.randint(1, 8)
     st = [r.randint(0, L - 1) for _ in range(n)]
-    return ["intervals", st, [r.randint(s + 1, L) for s in st], L]
+    en = [r.randint(s + 1, L) for s in st]
+    for i in range(n):
+        if r.random() < 0.3:                     # an interval covering its whole row (its last run is the whole row)
+            st[i], en[i] = 0, L
+    return ["intervals", st, en, L]
 
 
 OBJV = ["direct", "direct", "rev", "tail", "perm", "mask"]
